@@ -2,6 +2,8 @@ CONSTANTS
   MaxPred = 2
   MaxBl = 2
   MaxLine = 2
+  LinePred = 1
+  LineBl = 1
   MaxCnt = 2
   MaxTests = 0
   Dists = {"Z", "P", "INF"}
